@@ -100,9 +100,28 @@ def row(z):
     return 1 if z <= 2 else (2 if z <= 10 else 3)
 
 
+# Fixed generic orientation applied to every template unless case["orient"] == "template": the templates are laid out
+# with bonds on the x axis, which is inside the recorded frame-singularity finding of C02 (forces wrong for bonds along
+# +/-x). Properties that are not about orientation work in this generic frame; C02/C01 generate orientations explicitly.
+_q0 = np.array([0.8125, 0.3741, -0.2962, 0.3355])
+_q0 = _q0 / np.linalg.norm(_q0)
+_w, _x, _y, _z = _q0
+R_GENERIC = np.array([[1 - 2 * (_y * _y + _z * _z), 2 * (_x * _y - _z * _w), 2 * (_x * _z + _y * _w)],
+                      [2 * (_x * _y + _z * _w), 1 - 2 * (_x * _x + _z * _z), 2 * (_y * _z - _x * _w)],
+                      [2 * (_x * _z - _y * _w), 2 * (_y * _z + _x * _w), 1 - 2 * (_x * _x + _y * _y)]])
+
+
 def geometry(case):
-    """case: {tpl, amp, disp:[3n floats in [-1,1]] (optional), stretch:[i,j,f] (optional)} -> Z(list), xyz(np.ndarray n x 3)
-    Minimum interatomic distance >= 0.6 A is enforced by construction (the displacement is scaled down)."""
+    """case: {tpl, amp, disp:[3n floats in [-1,1]] (optional), stretch:[i,j,f] (optional), orient: generic|template}
+    -> Z(list), xyz(np.ndarray n x 3). Minimum interatomic distance >= 0.6 A is enforced by construction (the
+    displacement is scaled down)."""
+    Z, y = _geometry_template_frame(case)
+    if case.get("orient", "generic") == "generic":
+        y = y @ R_GENERIC.T
+    return Z, y
+
+
+def _geometry_template_frame(case):
     m = ALL[case["tpl"]]
     x0 = np.array(m["xyz"], dtype=float)
     n = len(x0)
